@@ -2,7 +2,7 @@
 """Seeded-change validation (DESIGN 6.6): every directory seeded/<id>/ holds a realistic breaking change produced by
 somebody who saw only the text of one property: patch.diff, demo.py (exit 1 with the change, 0 without), meta.json.
 
-usage: tools/seeded.py [ID ...] [--tests] [--demo] [--check] [--tier quick|thorough] [--scale S] [--props C01,C02]
+usage: tools/seeded.py [ID ...] [--tests] [--demo] [--check] [--record] [--tier quick|thorough] [--scale S] [--props C01,C02]
   --demo   run the demonstration against /repo (expect 0) and against a patched scratch copy (expect 1)
   --tests  run the pinned test suite in the patched scratch copy (expect 2104 passed)
   --check  run ./check for the property named in meta.json (or --props) with ROPE_SRC = patched scratch copy
@@ -27,6 +27,7 @@ if not ids:
     ids = sorted(d for d in os.listdir(root) if os.path.isdir(os.path.join(root, d)))
 do_all = not (flags & {"--demo", "--tests", "--check"})
 bad = 0
+record = {}
 for sid in ids:
     sd = os.path.join(root, sid)
     meta = json.load(open(os.path.join(sd, "meta.json")))
@@ -62,9 +63,13 @@ for sid in ids:
                 buckets = [l for l in r.stdout.splitlines() if l.startswith("violation bucket") or l.startswith("fixed finding")]
                 status = {0: "MISSED", 1: "DETECTED", 2: "HARNESS-ERROR"}.get(r.returncode, "?")
                 line += "\n           check %s: %s %s" % (pid, status, (buckets[0][:170] if buckets else (r.stdout.strip().splitlines() or [r.stderr[-200:]])[-1][:170]))
+                record.setdefault(sid, {"property": meta.get("property"), "checks": {}})["checks"][pid] = {"status": status, "first_bucket": (buckets[0].split(" seen ")[0] if buckets else "")}
                 if r.returncode != 1:
                     bad += 1
         print(line, flush=True)
     finally:
         shutil.rmtree(d, ignore_errors=True)
+if "--record" in flags:
+    with open(os.path.join(root, "RESULTS.json"), "w") as f:
+        json.dump({"tier": tier, "scale": scale, "results": record}, f, indent=1, sort_keys=True)
 sys.exit(1 if bad else 0)
